@@ -195,6 +195,28 @@ def register_merge_table(R):
                    note='merge table of function nodes: string / other target / same target; the argument merge itself is the composed merge'))
 
 
+def register_promotion(R):
+    """ConfigNode._maybe_promote, the DECISION only (C13): when a plain mapping takes the place of a function node at the end of a merge
+    (`Call <- !del mapping`, `Bind <- mapping`), the node that survives is the function node (it keeps its target and takes the
+    mapping's content); a function node taking the place of a plain mapping stays itself.  What is copied into the promoted node is
+    not decided here (bounded merge families)."""
+    N = 'awesomeyaml/nodes/node.py::'
+    NODEF = ['_priority', '_delete', '_allow_new', '_safe', '_implicit_delete', '_implicit_allow_new', '_implicit_safe', '_default_safe', '_metadata',
+             '_pyyaml_node', '_children', '$mlen', '$mkeyat', '$mpos', '$mval', '$llen', '$litem', '$pset', '_func', '$dict']
+    cases = [('plain-mapping-replaces-function-node', ['ConfigDict'], ['CallNode', 'BindNode'], 'other'),
+             ('function-node-replaces-plain-mapping', ['CallNode', 'BindNode'], ['ConfigDict'], 'self'),
+             ('same-class', ['ConfigDict'], ['ConfigDict'], 'self')]
+    for nm, scls, ocls, who in cases:
+        R.add(Contract(N + 'ConfigNode._maybe_promote', [P.node('self', scls), P.node('other', ocls)], name=nm,
+                       requires=lambda c: [('distinct', c.ref('self') != c.ref('other'))],
+                       modifies=lambda c: [(f, 'all') for f in NODEF],
+                       ensures=[('C13.surviving-node-of-a-promotion:' + nm, (lambda c, who=who: c.rt == c[who]))],
+                       raises=[Raises('Exception')], result=P.val('result', 'any'), props=('C13',),
+                       opts={'no_search': True, 'no_frame': True, 'verify_only': True, 'skip_kinds': ('pre', 'safety'), 'assume_children_are_objects': True},
+                       note='which of the two nodes is returned; callee preconditions of the copying steps are not obligations of this instance'))
+
+
 def _reg_all(R):
     register(R)
     register_merge_table(R)
+    register_promotion(R)
